@@ -200,6 +200,31 @@ def step (line : String) : String :=
   | ["QCANON", q] => match unhex q with
     | some q => showOutcomeBytes ((parseQuery q).map canonQuery)
     | none => "bad-op"
+  | ["UNRES", b] => match unhex b with
+    | some [c] => if isUnreserved c then "1" else "0"
+    | _ => "bad-op"
+  | ["UPHEX", b] => match unhex b with
+    | some [c] => hex ((pctEncode c).drop 1)
+    | _ => "bad-op"
+  | ["LATIN1", s] => match unhex s with
+    | some s => hex (latin1ToString s)
+    | none => "bad-op"
+  | ["TRIM", s] => match unhex s with
+    | some s => hex (trimAscii s)
+    | none => "bad-op"
+  | ["PREVAL", cred, t, now, region, service] =>
+    match unhex cred, t.toInt?, now.toInt?, unhex region, unhex service with
+    | some cred, some t, some now, some region, some service =>
+      let a : Authenticator := { creqSha := List.replicate 32 0, credential := cred, sessionToken := none, signature := [], timestamp := t }
+      match prevalidate a region service now with
+      | .ok () =>
+        match stringToSign a with
+        | .ok sts => s!"OK {hex sts}"
+        | .err k => s!"ERR {k.name}"
+        | .panic p => s!"PANIC {p.replace " " "_"}"
+      | .err k => s!"ERR {k.name}"
+      | .panic p => s!"PANIC {p.replace " " "_"}"
+    | _, _, _, _, _ => "bad-op"
   | ["UNESC", s] => match unhex s with
     | some s => showOutcomeBytes (unescapeUri s)
     | none => "bad-op"
